@@ -13,28 +13,28 @@ CHECKS = {
          "Every length (thorough: 1..4096; quick: 1..1030 plus all 8k/128k boundaries up to 4097) with constant, alternating and tape-derived choice vectors, constant and index-dependent correlations and both session orders is run through the real kos_ot_sender/kos_ot_receiver pair; every index is compared with x0 xor b*delta.",
          "entry points are the crate's own __bench re-exports; value domain of correlations is sampled by tape", "4.C11", "E1"),
  "C05": ("exploration", "exhaustive role enumeration on the real mpc with a monitor over schema-decoded recorded traffic",
-         "Every p_eval x every non-empty p_out for n=2..4 on circuits with register reuse/aliasing, outputs that are inputs and duplicated outputs; every message addressed to a party after its input processing is classified and decoded: nothing for non-output parties, only 'output wire shares' / evaluator 'lambda' with Some exactly at output registers for output parties.",
+         "Every p_eval x every non-empty p_out for n=2..4 (and output lists with repeated / unsorted indices) on circuits with register reuse/aliasing, outputs that are inputs and duplicated outputs; every message addressed to a party after its input processing is classified and decoded: nothing for non-output parties, only 'output wire shares' / evaluator 'lambda' with Some exactly at output registers for output parties.",
          "stage boundary = completion of the recipient's last input-stage operation on the harness's global logical clock; message labels are the engine's own phase strings", "4.C05", "E1+E3"),
  "C09": ("exploration", "exhaustive enumeration of inputs and an enumerated tape set per public configuration; comparison of recorded per-party channel-operation sequences",
-         "For every public configuration, every input assignment under one tape and a set of tapes under one assignment are executed; per party the ordered list of (peer, direction, label, length, poll index, completion rank) must be identical.",
+         "For every public configuration, every input assignment under one tape and a set of tapes under one assignment are executed (including two configurations with messages above 64 KiB); per party the ordered list of (peer, direction, label, length, poll index, completion rank) must be identical.",
          "default schedule; coins come from the harness's deterministic entropy backend (tapes are enumerated integers)", "4.C09", "E1"),
  "C12": ("model_checking", "stateless model checking of the real engine: deviation-bounded exhaustive schedule exploration (swap/starve) with state-hash pruning under an owned executor and channel",
-         "All schedules with at most k deviations from the default policy (k per configuration in the evidence), capacities 1/2/unbounded, n=2..4, are executed on the real code; each must terminate with the clear-text result, never have two sends or receives outstanding to one peer, and respect commit-before-reveal ordering. Deadlock detection is exact (no enabled action).",
-         "bounded number of deviations; root future polled only when woken; extracted-skeleton tier (E5) not yet built", "4.C12", "E1"),
+         "All schedules with at most k deviations from the default policy (k per configuration in the evidence), capacities 1/2/unbounded, n=2..4, plus a shape sweep (batch-boundary circuits, three global policies) are executed on the real code; a communication skeleton extracted with one starve run per operation is checked for all interleavings with stateright (BFS and DFS agree) and bound to the code both ways; each must terminate with the clear-text result, never have two sends or receives outstanding to one peer, and respect commit-before-reveal ordering. Deadlock detection is exact (no enabled action).",
+         "bounded number of deviations on real code; root future polled only when woken; skeleton conformance: every explored real execution is a word of the model, sampled cover paths of the model are followed by the code", "4.C12", "E1"),
  "C18": ("exploration", "exhaustive enumeration of an invalid-argument menu (one argument at a time, each recipient pattern) on the real mpc, counting channel operations",
-         "Every value of every argument's invalid menu (party indices at and far beyond the boundary, output sets empty / out of range / repeated / unsorted, wrong input lengths, circuits failing validation, inconsistent counters, misplaced or surplus Input instructions) is passed to one party at a time and to all parties; the call must return Err with zero channel operations (or, for repeated output indices, behave as a set), and never panic.",
-         "and_ops values that would make the engine allocate terabytes are not tried in-process", "4.C18", "E1+E3"),
+         "Every value of every argument's invalid menu (party indices at and far beyond the boundary, in last and non-last position, output sets empty / out of range / repeated / unsorted, wrong input lengths, circuits failing validation, inconsistent counters, misplaced or surplus Input instructions) is passed to one party at a time and to all parties; the call must return Err with zero channel operations (or, for repeated output indices, behave as a set), and never panic.",
+         "absurd and_ops counters are tried in child processes (an allocation failure aborts)", "4.C18", "E1+E3"),
  "C19": ("model_checking", "explicit-state breadth-first search over operation sequences on the real FileOrMemBuf (file and memory variant) against a reference model, states deduplicated on full hidden state",
-         "Breadth-first search to depth 12 over appends (6 sizes) and complete/abandoned item-wise and chunk-wise reads, executed on a real file-backed buffer, a real in-memory buffer and a Vec<Vec<u64>> model; items/order always equal, chunk boundaries equal when appends conform; no directory entry at any time; every new state re-checked by an append-canary differential; plus all unmerged sequences of fixed length and mpc runs under every tmp_dir mask with one tape (equal outputs and traffic).",
+         "Breadth-first search to depth 12 (chunk sizes 4 and 1500, the latter exceeding the readers' 8 KiB buffers) over appends (6 sizes) and complete/abandoned item-wise and chunk-wise reads, executed on a real file-backed buffer, a real in-memory buffer and a Vec<Vec<u64>> model; items/order always equal, chunk boundaries equal when appends conform; no directory entry at any time; every new state re-checked by an append-canary differential; plus all unmerged sequences of fixed length and mpc runs under every tmp_dir mask with one tape (equal outputs and traffic).",
          "element type u64 (the engine's types differ only in serde encoding); hidden state exposed by a guarded debug accessor; tmp dirs on tmpfs", "4.C19", "E3+E1"),
  "C20": ("exploration", "exhaustive enumeration of shapes, basis inputs, request lengths and short call sequences against schoolbook references and the aes crate",
          "Transpose: every accepted shape 128 x c (c=16..4096 step 8, also 256/384 rows) with single-bit basis inputs, index-bit matrices, dense inputs and all buffer alignments, AVX2 and portable vs a bit-by-bit reference; clmul: all 128x128 basis pairs plus structured/dense operands, PCLMUL and scalar vs shift-and-xor; fixed-key AES hashes vs the aes crate; AesRng: every length 0..1100 from a fresh generator vs the AES-CTR keystream and every short call sequence (fresh-substring oracle).",
          "AES over 2^128 blocks is not enumerable (structured + tape-derived blocks only); non-AVX2/PCLMUL CPUs are covered by calling the portable code directly", "4.C20", "E3"),
  "C06": ("exploration", "exhaustive enumeration of the honest party's inputs per tape (transcript diff) plus enumeration of a tape set under a harness-owned entropy source",
-         "For fixed tapes every input assignment of the honest party is executed and everything it sends is diffed (only the masked-input broadcast, by exactly the input difference, and values downstream of it may change); over an enumerated tape set the party's own mask share per wire is reconstructed from the transcript (both values occur, count within 5.5 sigma for input 0 and 1), probed global keys and 128-bit mask vectors are pairwise distinct, and a 128-bit canary input / own-share vector is searched in the traffic at every bit offset.",
+         "For fixed tapes every input assignment of the honest party is executed and everything it sends is diffed (only the masked-input broadcast, by exactly the input difference, and values downstream of it may change); over an enumerated tape set the party's own mask share per wire is reconstructed from the transcript (both values occur, count within 5.5 sigma for input 0 and 1), probed global keys and 128-bit mask vectors are pairwise distinct, each of the 128 own mask shares of the canary configuration takes both values over the tapes, and a 128-bit canary input / own-share vector is searched in the traffic at every bit offset.",
          "the frequency clause is a count over enumerated tapes, not decided by exhaustive exploration; delta is read through a guarded probe", "4.C06", "E1"),
  "C08": ("fault_enumeration", "exhaustive enumeration of single message alterations (byte-level and structure-aware) and crash points of one corrupted party against the real engine, in worker subprocesses",
-         "For every message ordinal of the corrupted sender every byte-level class and every count-changing structural mutation at every nesting level, and every crash point, is executed; each honest party must reach Ok/Err (no panic, no 'no enabled action' hang) with bounded heap. Aborts are attributed to their case through subprocess isolation.",
+         "For every message ordinal of the corrupted sender every byte-level class and every count-changing structural mutation at every nesting level, every crash point, every duplicated message and commit-to-malformed-opening chains are executed; each honest party must reach Ok/Err (no panic, no 'no enabled action' hang) with bounded heap. Aborts are attributed to their case through subprocess isolation.",
          "one corrupted party, single fault (thorough adds malformed-then-crash pairs); heap accounting per party thread", "4.C08", "E1+E2"),
  "C10": ("exploration", "enumeration of an (n, batch length, operand pattern) lattice through guarded API wrappers on the real preprocessing, relations recomputed from plain integers for every index and ordered pair",
          "fashare for n=2..5 over dense small lengths and block/batch boundaries, fashare+beaver_aand for n=2..4 with fresh, xor-combined and constant-forced operands (thorough: bucket sizes 5/4/3), the real trusted dealer with harness-side parties, and shared-coin agreement; MAC/key and AND relations are checked for every index and ordered pair.",
@@ -43,17 +43,17 @@ CHECKS = {
          "Every authenticated field of every online message of the corrupted party (input/output mask shares and MACs, masked-input equivocation, wire labels feeding AND gates, every garbled row, revealed output values and labels, broadcast echo), at every position (quick: first/middle/last of long vectors), for corrupted garbler and evaluator, n=2,3, and a garbler that garbles a flipped share bit into rows that still decrypt; the honest consumer must return Err.",
          "one corrupted party, one altered field per execution; unread-by-design fields (inactive rows, labels not feeding an AND gate) are counted as trivial", "4.C03", "E1+E2"),
  "C04": ("fault_enumeration", "exhaustive enumeration of single-field alterations of every preprocessing message with per-field consumption rules; trace monitors over model-checked schedules; wire-only challenge predictor compared with probes",
-         "(a) every field of every coin-toss, base-OT, OT-extension, aBit, aShare, HaAND/LaAND, bucket and Beaver message of the corrupted party, to one recipient and consistently to all, plus tap-based persistent liars: honest recipients of a consumed bad value return Err (by a check of their own where they hold the key/commitment); (b) reveal-after-all-commits on every schedule explored by the C12 explorer; (c) challenges recomputed from wire data available before the checked data is sent, compared with the challenge actually used, and reuse between checks.",
+         "(a) every field of every coin-toss, base-OT, OT-extension, aBit, aShare, HaAND/LaAND, bucket and Beaver message of the corrupted party, to one recipient and consistently to all, pairs of lies inside one message, commit-then-open chains (commitment recomputed for the altered opening), plus tap-based persistent liars (one and two lies): honest recipients of a consumed bad value return Err (by a check of their own where they hold the key/commitment); (b) reveal-after-all-commits on every schedule explored by the C12 explorer; (c) challenges recomputed from wire data available before the checked data is sent, compared with the challenge actually used, and reuse between checks.",
          "negligible-probability forgeries treated as impossible; three protocol-flow findings (challenge fixed before data) are listed in known_findings.json", "4.C04", "E1+E2"),
  "C02": ("fault_enumeration", "exhaustive enumeration of single structure-aware alterations and omissions of every message of one corrupted party (all phases) plus tap-based consistent lies, with an output-set oracle computed by enumeration of the corrupted inputs",
-         "For circuits whose outputs pin down the corrupted party's effective input, every message of the corrupted evaluator/garbler is altered at every field (bit flips, omissions, empty vectors; thorough: full menu), per recipient and consistently; every honest output party must return Err or a value in {f(x_honest, x')}, and all accepted values must be explained by one x'.",
+         "For circuits whose outputs pin down the corrupted party's effective input, every message of the corrupted evaluator/garbler is altered at every field (bit flips, omissions, empty vectors; thorough: full menu and all pairs of online-phase faults), per recipient and consistently, plus pairs of lies inside one message, consistent (pair) lies through taps and scripted chains (equivocating evaluator with fixed-up reveal); every honest output party must return Err or a value in {f(x_honest, x')}, and all accepted values must be explained by one x'.",
          "single corrupted party, one fault per execution (plus taps); quick uses the reduced mutation menu", "4.C02", "E1+E2"),
  "C07": ("fault_enumeration", "XOR-closure search for the victim's probed key over all bytes on the wire, on honest runs, on every enumerated single alteration that keeps the run going, and on a scripted persistent attacker",
          "With d the victim's global key: d must not occur at any byte offset (either byte order), no two 128-bit windows and no three decoded 128-bit fields of the pooled traffic (plus what peers hold in the honest run of the same tape) may XOR to d; evaluated on honest runs (NOT gates on inputs, AND outputs, outputs; n=2..4; plus the label census: exactly one garbled row per (AND gate, garbler) opens under the evaluator's labels), on every fault of the C02/C04 menu after which the victim keeps sending, and on the check-bit liar with fixed-up reply.",
          "label census on honest runs only; one by-design leak of the failing LaAND check is a known finding", "4.C07", "E1+E2"),
  "C13": ("model_checking", "explicit-state exploration of event histories on the real PolicyState actors (current-thread tokio, paused clock, owned RPC transport), merged by Mazurkiewicz canonical form",
          "All orders of schedule injections, deliveries and answers of every validate/run/consts RPC and compile completions are enumerated on the real actors for n=2 (every leader, constants from none/one/all, destination subsets) and n=3; at the end of every maximal history every schedule call returned Ok, every destination received exactly the clear-text result once, all state machines stopped without panic and all permits are back.",
-         "MPC messages are delivered eagerly FIFO per pair (their positions are part of the canonical form); quiescence = tokio paused-clock idleness plus the guarded compile gate", "4.C13", "E4"),
+         "MPC messages are delivered eagerly FIFO per pair and every implicit delivery is part of the canonical form on which histories are merged; quiescence = tokio paused-clock idleness plus the guarded compile gate", "4.C13", "E4"),
  "C14": ("fault_enumeration", "enumeration of every stray command kind x target x position of a complete history on the real actors",
          "At every prefix length among coordination events (and spaced positions during MPC) of the default history for n=2 and n=3, each stray command (duplicate/foreign schedule, run, consts, mpc_msg with in- and out-of-range senders) is sent to each party; no state machine may panic, an unknown sender is never accepted, and when the stray command was rejected all end-of-history assertions of C13 still hold.",
          "base = default-order history; stray commands that are valid for the current state are only checked for panics", "4.C14", "E4"),
